@@ -330,7 +330,7 @@ func runC19(c *c19Case) *c19Obs {
 			// torn one, TLS cannot even say how far it got), and the client has to come back on a fresh one
 			if conn != nil {
 				openSrvGate()
-				srvGate.Store(make(chan struct{})) // the dispatch loop of this session stays in its handler: the server stops consuming
+				srvGate.Store(make(chan struct{}))             // the dispatch loop of this session stays in its handler: the server stops consuming
 				payload := strings.Repeat("s", c19ReadLimit/2) // well within the server's read limit
 				for k := 0; k < 200; k++ {
 					m := &lime.Message{}
